@@ -319,6 +319,44 @@ pub fn judge_embedded(c: &Case, k: usize) -> Verdict {
     }
 }
 
+const JOINERS: [(&str, &str, &str); 7] = [("", " ", ""), ("", " -a ", ""), ("", " -o ", ""), ("", " , ", ""), ("! ( ", " ", " )"), ("( ", " -o ", " ) -print"), ("-true , ", " -and ", " -o -false")];
+
+/// Two numeric primaries next to each other (a lower and an upper bound of one attribute, in the
+/// same or in different units; equal or crossing bounds): both constants reach the program, exact
+/// and in the order written, whatever the range they describe together.
+pub fn judge_pair(a: &Case, b: &Case, k: usize) -> Verdict {
+    let (pre, mid, post) = JOINERS[k % JOINERS.len()];
+    let word = |c: &Case| format!("{} {}{}{}", c.carrier.keyword(), if c.sign == ' ' { String::new() } else { c.sign.to_string() }, c.digits, c.carrier.suffix());
+    let text = format!("{pre}{}{mid}{}{post}", word(a), word(b));
+    let mut want = vec![];
+    for c in [a, b] {
+        let Some(v) = value_of(&c.digits) else { return Verdict::Skip("not a number") };
+        if v > c.carrier.field_max() || v.checked_mul(c.carrier.unit()).map(|p| p > u64::MAX as u128).unwrap_or(true) {
+            return Verdict::Skip("out of range (single-primary part)");
+        }
+        let op = match c.sign {
+            '+' => ">",
+            '-' => "<",
+            _ => "=",
+        };
+        want.push((op.to_string(), (v * c.carrier.unit()).to_string()));
+    }
+    let prog = match catch(|| parse(&text).map_err(|e| e.to_string()).and_then(|(o, t)| compile(&t, &o).map(|c| c.scheme("/")).map_err(|e| e.to_string()))) {
+        Err(p) => return Verdict::Fail(format!("{text:?}: panic: {p}")),
+        Ok(Err(e)) => return Verdict::Fail(format!("{text:?}: both values are within range, but the input was rejected: {e}")),
+        Ok(Ok(p)) => p,
+    };
+    let forms = match sx::read_all(&prog) {
+        Ok(f) => f,
+        Err(e) => return Verdict::Fail(format!("{text:?}: program does not read: {e}")),
+    };
+    let (cmps, _) = comparisons(&forms);
+    if cmps != want {
+        return Verdict::Fail(format!("{text:?}: comparisons in the policy are {cmps:?}, expected exactly {want:?} in this order\n{prog}"));
+    }
+    Verdict::Pass { nt: a.carrier != b.carrier || a.sign != b.sign, class: "two numeric primaries side by side: both exact" }
+}
+
 fn case_json(c: &Case) -> Value {
     json!({"kind": "number", "carrier": c.carrier.json(), "sign": c.sign.to_string(), "digits": c.digits, "input": input_of(c)})
 }
@@ -329,6 +367,14 @@ pub fn replay(case: &Value) -> Result<Verdict, String> {
         sign: case["sign"].as_str().and_then(|s| s.chars().next()).unwrap_or(' '),
         digits: case["digits"].as_str().ok_or("digits")?.to_string(),
     };
+    if let Some(o) = case.get("second") {
+        let d = Case {
+            carrier: parse_carrier(o["carrier"].as_str().ok_or("carrier")?).ok_or("unknown carrier")?,
+            sign: o["sign"].as_str().and_then(|s| s.chars().next()).unwrap_or(' '),
+            digits: o["digits"].as_str().ok_or("digits")?.to_string(),
+        };
+        return Ok(judge_pair(&c, &d, case["joiner"].as_u64().unwrap_or(0) as usize));
+    }
     if let Some(k) = case["embedding"].as_u64() {
         return Ok(judge_embedded(&c, k as usize));
     }
@@ -421,6 +467,53 @@ pub fn run(ctx: &Ctx) -> Report {
     total.merge(sys);
     total.exhaustive_parts.push("every numeric carrier (46: ids, counts, -threads, -size x 8 unit spellings, 6 time tests x 5 unit spellings, -maxdepth/-mindepth) x values within +-2 of {every power of two up to 2^70, every power of ten up to 10^21, 2^k/unit, 2^64/unit for every unit} x {0,1,30} leading zeros x {none,+,-}, plus 20-40 digit strings".into());
 
+    // pairs of numeric primaries of one attribute (a range, possibly empty or in mixed units)
+    let fam: Vec<Vec<Carrier>> = {
+        let mut f: Vec<Vec<Carrier>> = vec![cs.iter().cloned().filter(|c| matches!(c, Carrier::Size(_))).collect()];
+        for w in [Which::A, Which::C, Which::M] {
+            f.push(cs.iter().cloned().filter(|c| matches!(c, Carrier::Time(x, _, _) if *x == w)).collect());
+        }
+        for c in [Carrier::Uid, Carrier::Gid, Carrier::Inum, Carrier::MirrorCount, Carrier::StripeCount, Carrier::Links] {
+            f.push(vec![c]);
+        }
+        f
+    };
+    let denom = ctx.tier.pick(8u64, 1u64);
+    let pairs = run_shards(fam.len(), |i| {
+        let mut st = Stats::new();
+        let vals = ["0", "1", "2", "1024", "2048"];
+        for ca in &fam[i] {
+            for cb in &fam[i] {
+                for va in vals {
+                    for vb in vals {
+                        for sa in ['+', '-', ' '] {
+                            for sb in ['+', '-', ' '] {
+                                for k in 0..JOINERS.len() {
+                                    let a = Case { carrier: *ca, sign: sa, digits: va.to_string() };
+                                    let b = Case { carrier: *cb, sign: sb, digits: vb.to_string() };
+                                    let h = stable_hash(&(&a, &b, k));
+                                    if fam[i].len() > 1 && h.wrapping_add(ctx.seed) % denom != 0 {
+                                        continue;
+                                    }
+                                    let v = judge_pair(&a, &b, k);
+                                    st.record(&v, h, true, || {
+                                        let mut j = case_json(&a);
+                                        j["second"] = case_json(&b);
+                                        j["joiner"] = json!(k);
+                                        j
+                                    });
+                                }
+                            }
+                        }
+                    }
+                }
+            }
+        }
+        st
+    });
+    total.merge(pairs);
+    total.exhaustive_parts.push(format!("pairs of numeric primaries of one attribute (-size x 8 unit spellings squared, each time attribute x 10 spellings squared, six id/count tests) x values {{0,1,2,1024,2048}}^2 x signs^2 x 7 ways of joining them: {}", if denom == 1 { "all" } else { "seed-selected 1/8 slice of the multi-spelling families" }));
+
     let cases = ctx.tier.pick(300_000u32, 3_000_000u32);
     let shards = 16;
     let rnd = run_shards(shards, |shard| {
@@ -440,7 +533,7 @@ pub fn run(ctx: &Ctx) -> Report {
     total.merge(rnd);
     Report {
         stats: total,
-        rule: "every numeric carrier x decimal strings (boundary-directed and random, with leading zeros, signs, up to 40 digits). Oracle: big-integer arithmetic on the text: v <= range of the field (u32/u64) and v*unit <= u64::MAX -> parse Ok, the tree carries exactly v, and the integer literal of the emitted comparison (read by the independent reader, compared as digit strings) equals v*unit (sizes) resp. v, the thread count is the fifth argument of the scan call; otherwise the input must be rejected with an error value by parse or compile (a panic is not a rejection, any emitted program is a failure). A third of the systematic cases are repeated with the primary inside a larger expression (left of ',', under '!', in parentheses, after -o, ...): in range -> the one comparison of the program is exact, beyond the range -> no program. Run in the dev and the release build. Non-trivial: v within +-2 of a boundary, or leading zeros, or >=20 digits. Distinct: by (carrier, sign, digit string).".into(),
+        rule: "every numeric carrier x decimal strings (boundary-directed and random, with leading zeros, signs, up to 40 digits). Oracle: big-integer arithmetic on the text: v <= range of the field (u32/u64) and v*unit <= u64::MAX -> parse Ok, the tree carries exactly v, and the integer literal of the emitted comparison (read by the independent reader, compared as digit strings) equals v*unit (sizes) resp. v, the thread count is the fifth argument of the scan call; otherwise the input must be rejected with an error value by parse or compile (a panic is not a rejection, any emitted program is a failure). A third of the systematic cases are repeated with the primary inside a larger expression (left of ',', under '!', in parentheses, after -o, ...): in range -> the one comparison of the program is exact, beyond the range -> no program. Pairs of numeric primaries of one attribute side by side (lower and upper bounds in the same or different units, equal, crossing or empty ranges, joined by AND/OR/','/negation): the program holds exactly the two exact comparisons in the order written. Run in the dev and the release build. Non-trivial: v within +-2 of a boundary, or leading zeros, or >=20 digits. Distinct: by (carrier, sign, digit string).".into(),
         assumptions: vec!["-maxdepth/-mindepth: only 'beyond u32 must be rejected' is asserted here; what happens in range is C13's".into()],
         exhaustive: false,
     }
